@@ -98,6 +98,24 @@ pub fn roundtrip(payload: &[u8], fill: u64) -> Result<u64, String> {
     chk_sb(&fb).map_err(|m| format!("to_bytes/from_bytes: {m}"))?;
     let (t, d) = sb.clone().into_parts();
     chk_sb(&DryocSecretBox::from_parts(t, d)).map_err(|m| format!("into_parts/from_parts: {m}"))?;
+    // into_vec / to_vec on objects whose data buffer has SPARE CAPACITY (decoded by serde, or assembled from a reused buffer)
+    {
+        let js = serde_json::to_string(&sb).map_err(|e| e.to_string())?;
+        let dec: DryocSecretBox<SB<16>, Vec<u8>> = serde_json::from_str(&js).map_err(|e| format!("secret box JSON: {e}"))?;
+        same(&dec.to_vec(), &want_wire, "to_vec of a JSON-decoded secret box vs libsodium layout")?;
+        same(&dec.into_vec(), &want_wire, "into_vec of a JSON-decoded secret box vs libsodium layout")?;
+        let dec: DryocSecretBox<SB<16>, Vec<u8>> = bincode::deserialize(&bincode::serialize(&sb).map_err(|e| e.to_string())?).map_err(|e| format!("secret box bincode: {e}"))?;
+        same(&dec.into_vec(), &want_wire, "into_vec of a bincode-decoded secret box vs libsodium layout")?;
+        for spare in [1usize, 15, 16, 17, 64] {
+            let (t, d) = sb.clone().into_parts();
+            let mut roomy = Vec::with_capacity(d.len() + spare);
+            roomy.extend_from_slice(&d);
+            let b = DryocSecretBox::<SB<16>, Vec<u8>>::from_parts(t, roomy);
+            same(&b.to_vec(), &want_wire, "to_vec of a secret box whose data Vec has spare capacity")?;
+            same(&b.into_vec(), &want_wire, "into_vec of a secret box whose data Vec has spare capacity")?;
+        }
+        n += 8;
+    }
     let sbv: DryocSecretBox<Vec<u8>, Vec<u8>> = DryocSecretBox::encrypt(payload, &nonce, &key);
     formats("DryocSecretBox<Vec,Vec>", &sbv, &|d| if *d == sbv { Ok(()) } else { Err("decoded != original".into()) }, &mut n)?;
 
